@@ -1,7 +1,7 @@
 use proc_macro2::TokenStream;
 use quote::quote;
 use std::collections::HashSet;
-use syn::{punctuated::Punctuated, Error, FnArg, Pat, Type};
+use syn::{ext::IdentExt, punctuated::Punctuated, Error, FnArg, Pat, Type};
 
 use super::{
     types::{ArgInfo, MethodAttrs},
@@ -17,7 +17,8 @@ pub(super) fn generate_method_impl(
     crate_path: &TokenStream,
 ) -> Result<TokenStream, Error> {
     let method_name = &method.sig.ident;
-    let method_name_str = method_name.to_string();
+    // A raw identifier (`r#type`) names the method `type`.
+    let method_name_str = method_name.unraw().to_string();
 
     let converted_name = snake_case_to_pascal_case(&method_name_str);
     let actual_method_name = method_attrs.rename.as_deref().unwrap_or(&converted_name);
@@ -87,8 +88,8 @@ pub(super) fn generate_method_impl(
     // A method without outputs must accept a reply whose `parameters` member is absent, `null` or
     // an empty object. `()` only accepts `null`, so such replies are decoded through a private
     // type that accepts all three spellings.
-    let is_unit_reply =
-        matches!(&reply_type, Type::Tuple(tuple) if tuple.elems.is_empty()) && !method_attrs.is_oneway;
+    let is_unit_reply = matches!(&reply_type, Type::Tuple(tuple) if tuple.elems.is_empty())
+        && !method_attrs.is_oneway;
     let (wire_reply_type, no_parameters_def): (Type, TokenStream) = if is_unit_reply {
         (
             syn::parse_quote!(__ZlinkNoParameters),
